@@ -4,3 +4,5 @@
 def generate():
     from . import extract_log
     extract_log.generate()
+    from . import extract_errors
+    extract_errors.generate()
